@@ -25,7 +25,9 @@ Proof.
   destruct (Forall2_nth_l _ _ _ _ _ (inv_objs _ I) Ex) as (i & Ei & O).
   assert (Eg : g_inc w o = i) by (unfold g_inc; apply nth_error_nth_default; auto).
   exists x. rewrite Eg. splits; auto.
-  - unfold g_pid. rewrite Eg. destruct O as [(s0 & _ & Hh) _]. eapply inc_pid_ok; eauto.
+  - unfold g_pid. rewrite Eg. destruct O as ([(s0 & _ & Hh)|(Ei' & _ & _)] & _ & _ & _ & R).
+    + apply (inv_lt _ I) in Hh as Hl. destruct (Z.ltb_spec i 0); [lia|]. eapply inc_pid_ok; eauto.
+    + destruct (Z.ltb_spec i 0); lia.
   - unfold obj_pid. rewrite Ex. reflexivity.
 Qed.
 
@@ -127,50 +129,97 @@ Proof.
 Qed.
 
 (* calls other than signals/setters issue no system call *)
-Lemma mcall_nonset_scs K m c : (forall o s, c <> Set_ o s) -> snd (mcall K m c) = [].
+Lemma mcall_nonset_scs K m c :
+  (forall o s, c <> Set_ o s) -> (forall o s, c <> SetAct o s) -> snd (mcall K m c) = [].
 Proof.
-  intros N. destruct c; cbn [mcall]; try (exfalso; eapply N; reflexivity);
+  intros N N'. destruct c; cbn [mcall]; try (exfalso; eapply N; reflexivity); try (exfalso; eapply N'; reflexivity);
     repeat match goal with
            | |- context [match ?e with _ => _ end] => destruct e
            end; reflexivity.
 Qed.
 
-Lemma valid_kill_pid p s sig : intended p s = SKill p sig -> valid_args p s = true -> p <> 0.
+(* no os.kill with pid <= 0: a fact about the code of the methods alone *)
+Definition no_group (sc : sysc) : Prop := match sc with SKill p _ => p <=? 0 | _ => false end = false.
+
+Lemma is_running_pid K x : opid (fst (fst (is_running K x))) = opid x.
 Proof.
-  destruct s; cbn [intended valid_args]; intros E V; try discriminate;
-    apply negb_true_iff in V; apply Z.eqb_neq in V; auto.
+  unfold is_running.
+  repeat match goal with |- context [match ?e with _ => _ end] => destruct e end; reflexivity.
+Qed.
+
+Lemma raise_if_pid K x : opid (fst (fst (raise_if_pid_reused K x))) = opid x.
+Proof.
+  unfold raise_if_pid_reused. pose proof (is_running_pid K x) as P.
+  destruct (ogone x && negb (oreused x)); [reflexivity|]. destruct (oreused x); [reflexivity|].
+  destruct (is_running K x) as [[x1 r] add]. cbn [fst] in P.
+  destruct r as [b| |]; [destruct (negb b && oreused x1)| |]; exact P.
+Qed.
+
+Lemma body_no_group K x s : 0 <= opid x -> Forall no_group (snd (setter_body K x s)).
+Proof.
+  intros R.
+  assert (KB : forall sig, Forall no_group (snd (kill_body K x sig))).
+  { intros sig. unfold kill_body. destruct (opid x =? 0) eqn:E; [constructor|].
+    apply Z.eqb_neq in E. destruct (kexists K (opid x)); cbn [snd]; constructor; try constructor;
+      unfold no_group; apply Z.leb_gt; lia. }
+  destruct s; cbn [setter_body]; auto; unfold wrapped_sys;
+    repeat match goal with |- context [match ?e with _ => _ end] => destruct e end;
+    cbn [snd]; repeat constructor.
+Qed.
+
+Lemma mcall_no_group K m c :
+  (forall x, In x (objs m) -> 0 <= opid x) -> Forall no_group (snd (mcall K m c)).
+Proof.
+  intros R.
+  assert (Nth : forall o x, nth_error (objs m) o = Some x -> 0 <= opid x).
+  { intros o x E. apply R. eapply nth_error_In; eauto. }
+  destruct c; try (rewrite mcall_nonset_scs by (intros; discriminate); constructor); cbn [mcall].
+  - (* SetAct *)
+    destruct (nth_error (objs m) o) as [x|] eqn:Ex; [|constructor].
+    pose proof (body_no_group K x s (Nth _ _ Ex)) as B.
+    destruct (setter_body K x s) as [[x2 r2] scs]. exact B.
+  - (* Set_ *)
+    destruct (nth_error (objs m) o) as [x|] eqn:Ex; [|constructor].
+    unfold do_setter. destruct (opid x <? 0); [constructor|].
+    pose proof (raise_if_pid K x) as P.
+    destruct (raise_if_pid_reused K x) as [[x1 r] add]. cbn [fst] in P.
+    destruct r as [u|e|]; cbn [snd]; try constructor.
+    pose proof (body_no_group K x1 s) as B. rewrite P in B. specialize (B (Nth _ _ Ex)).
+    destruct (setter_body K x1 s) as [[x2 r2] scs]. exact B.
+Qed.
+
+Lemma inv_objs_nonneg w : Inv w -> forall x, In x (objs (ms w)) -> 0 <= opid x.
+Proof.
+  intros I x Hx. apply In_nth_error in Hx as [n Hn].
+  destruct (Forall2_nth_l _ _ _ _ _ (inv_objs _ I) Hn) as (i & _ & O). apply O.
+Qed.
+
+Lemma ksteps_ms ks : forall w, ms (fold_left kstep ks w) = ms w.
+Proof.
+  induction ks as [|k ks IH]; intros w; cbn [fold_left]; auto. rewrite IH. destruct k; reflexivity.
+Qed.
+
+Lemma cstep_effects w c : snd (cstep w c) = map (tag w) (snd (mcall (view_of w) (ms w) c)).
+Proof. rewrite cstep_eq. reflexivity. Qed.
+
+Lemma cstep_no_group w c e :
+  (forall x, In x (objs (ms w)) -> 0 <= opid x) -> In e (snd (cstep w c)) -> group_kill e = false.
+Proof.
+  intros R He. rewrite cstep_effects in He. apply in_map_iff in He as [sc [<- Hsc]].
+  pose proof (mcall_no_group (view_of w) (ms w) c R) as F. rewrite Forall_forall in F.
+  apply F in Hsc. unfold group_kill, tag. cbn [fst]. exact Hsc.
 Qed.
 
 Lemma never_group h e c :
   wf_hist h = true -> In c (effects_of (run h) e) -> group_kill c = false.
 Proof.
-  intros W Hc. pose proof (run_inv h W) as I. destruct e as [k|cl].
+  intros W Hc. pose proof (run_inv h W) as I. unfold effects_of in Hc. destruct e as [k|cl|o s ks]; cbn [step] in Hc.
   - cbn in Hc. contradiction.
-  - assert (Set_case : forall o s, cl = Set_ o s -> group_kill c = false).
-    { intros o s ->. destruct (has_obj (run h) o) eqn:H.
-      - destruct (obj_pid_creation h o W H) as [_ R].
-        destruct (set_answer (run h) o s I H) as (Sa & So & Sn). cbn zeta in *.
-        assert (K : forall t, c = (intended (obj_pid (run h) o) s, t) ->
-                    valid_args (obj_pid (run h) o) s = true -> group_kill c = false).
-        { intros t -> V. unfold group_kill. cbn [fst].
-          destruct (intended (obj_pid (run h) o) s) eqn:Ei; auto.
-          assert (pid = obj_pid (run h) o).
-          { pose proof (sysc_pid_intended (obj_pid (run h) o) s) as Hp. rewrite Ei in Hp. auto. }
-          subst pid. pose proof (valid_kill_pid _ _ _ Ei V). apply Z.leb_gt. lia. }
-        destruct (alive (run h) (g_inc (run h) o)) eqn:A.
-        + specialize (Sa eq_refl). destruct (valid_args (obj_pid (run h) o) s) eqn:V.
-          * destruct Sa as [_ E]. rewrite E in Hc. destruct Hc as [<-|[]]. eapply K; eauto.
-          * destruct Sa as [_ E]. rewrite E in Hc. contradiction.
-        + destruct (owner (run h) (obj_pid (run h) o)) eqn:Ow.
-          * destruct (So eq_refl) as [_ E]; [discriminate|]. rewrite E in Hc. contradiction.
-          * specialize (Sn eq_refl eq_refl). destruct (valid_args (obj_pid (run h) o) s) eqn:V.
-            -- destruct Sn as [_ [E|E]]; rewrite E in Hc; [contradiction|].
-               destruct Hc as [<-|[]]. eapply K; eauto.
-            -- destruct Sn as [_ E]. rewrite E in Hc. contradiction.
-      - rewrite effects_call in Hc. cbn [mcall] in Hc. unfold has_obj in H.
-        destruct (nth_error (objs (ms (run h))) o); [discriminate|]. cbn in Hc. contradiction. }
-    destruct cl; try (eapply Set_case; reflexivity);
-      rewrite effects_call, mcall_nonset_scs in Hc by (intros; discriminate); contradiction.
+  - eapply cstep_no_group; eauto. apply inv_objs_nonneg; auto.
+  - pose proof (cstep_inv (run h) (SetProbe o) I) as I1.
+    destruct (cstep (run h) (SetProbe o)) as [[w1 r1] e1]. cbn [fst] in I1.
+    destruct r1; cbn [snd] in Hc; try contradiction.
+    eapply cstep_no_group; eauto. rewrite ksteps_ms. apply inv_objs_nonneg; auto.
 Qed.
 
 Lemma negative_pid_rejected w pid : pid < 0 ->
@@ -259,22 +308,58 @@ Proof.
   pose proof (Forall2_len _ _ _ (inv_objs _ I)) as Len.
   unfold has_obj, g_inc, obj_pid. cbn [ms ginc with_objs objs].
   rewrite skipn_app_exact. cbn [map]. rewrite nth_error_app2 by lia. rewrite Nat.sub_diag. cbn [nth_error].
-  rewrite Len, app_nth2 by lia. rewrite Nat.sub_diag. cbn [nth]. rewrite Ep, Ow. auto.
+  rewrite Len, app_nth2 by lia. rewrite Nat.sub_diag. cbn [nth]. unfold ghost_of. rewrite Ep, Ow. auto.
 Qed.
 
 (* ... and never changes afterwards *)
+Lemma next_race w o s ks :
+  next w (ER o s ks) =
+  match snd (fst (cstep w (SetProbe o))) with
+  | Val _ => fst (fst (cstep (fold_left kstep ks (fst (fst (cstep w (SetProbe o))))) (SetAct o s)))
+  | _ => fold_left kstep ks (fst (fst (cstep w (SetProbe o))))
+  end.
+Proof.
+  unfold next. cbn [step]. destruct (cstep w (SetProbe o)) as [[w1 r1] e1]. cbn [fst snd].
+  destruct r1; reflexivity.
+Qed.
+
+Lemma ksteps_ginc ks : forall w, ginc (fold_left kstep ks w) = ginc w.
+Proof.
+  induction ks as [|k ks IH]; intros w; cbn [fold_left]; auto. rewrite IH. destruct k; reflexivity.
+Qed.
+
+Lemma cstep_ginc w c : exists l, ginc (fst (fst (cstep w c))) = ginc w ++ l.
+Proof. rewrite cstep_eq. cbn [fst ginc]. eauto. Qed.
+
 Lemma ginc_prefix w e : exists l, ginc (next w e) = ginc w ++ l.
 Proof.
-  destruct e as [k|c].
+  destruct e as [k|c|o s ks].
   - exists []. rewrite app_nil_r. destruct k; reflexivity.
-  - unfold next. rewrite step_call. cbn [fst ginc]. eauto.
+  - apply cstep_ginc.
+  - rewrite next_race. destruct (cstep_ginc w (SetProbe o)) as [l1 E1].
+    destruct (snd (fst (cstep w (SetProbe o)))).
+    + destruct (cstep_ginc (fold_left kstep ks (fst (fst (cstep w (SetProbe o))))) (SetAct o s)) as [l2 E2].
+      rewrite E2, ksteps_ginc, E1, <- app_assoc. eauto.
+    + rewrite ksteps_ginc. eauto.
+    + rewrite ksteps_ginc. eauto.
 Qed.
+
+Lemma kstep_hist w k x : In x (hist w) -> In x (hist (kstep w k)).
+Proof. destruct k; cbn; auto. Qed.
+
+Lemma ksteps_hist ks : forall w x, In x (hist w) -> In x (hist (fold_left kstep ks w)).
+Proof. induction ks as [|k ks IH]; intros w x H; cbn [fold_left]; auto. apply IH, kstep_hist, H. Qed.
+
+Lemma cstep_hist w c : hist (fst (fst (cstep w c))) = hist w.
+Proof. rewrite cstep_eq. reflexivity. Qed.
 
 Lemma hist_mono w e x : In x (hist w) -> In x (hist (next w e)).
 Proof.
-  destruct e as [k|c].
-  - destruct k; cbn; auto.
-  - unfold next. rewrite step_call. cbn [fst hist]. auto.
+  destruct e as [k|c|o s ks]; intros H.
+  - apply kstep_hist, H.
+  - unfold next. cbn [step]. rewrite cstep_hist. exact H.
+  - rewrite next_race. destruct (snd (fst (cstep w (SetProbe o)))); [rewrite cstep_hist| |];
+      apply ksteps_hist; rewrite cstep_hist; exact H.
 Qed.
 
 Lemma g_inc_next w e o : (o < length (ginc w))%nat -> g_inc (next w e) o = g_inc w o.
@@ -295,22 +380,55 @@ Proof.
 Qed.
 
 (* an incarnation that has left the table never comes back *)
-Lemma alive_next_false w e i p s :
-  Inv w -> wf_ev w e = true -> In (i, p, s) (hist w) -> alive w i = false -> alive (next w e) i = false.
+Lemma kstep_alive_false w k i :
+  i < nextinc w -> alive w i = false -> alive (kstep w k) i = false /\ i < nextinc (kstep w k).
 Proof.
-  intros I W Hi A. destruct e as [k|c].
-  - unfold next. cbn [step fst]. apply alive_false. intros k' Hk' E.
+  intros Hi A. split.
+  - apply alive_false. intros k' Hk' E.
     pose proof (proj1 (alive_false w i) A) as Nw.
     destruct k as [q t pp cm|q|q|q|d]; cbn [kstep table] in Hk'.
     + apply in_app_iff in Hk' as [Hk'|[Hk'|[]]]; [eapply Nw; eauto|].
-      subst k'. cbn [kinc] in E. apply (inv_lt _ I) in Hi. lia.
+      subst k'. cbn [kinc] in E. lia.
     + apply in_map_iff in Hk' as [k0 [E0 Hk0]]. subst k'.
       apply (Nw k0 Hk0). destruct (kpid k0 =? q); auto.
     + apply in_map_iff in Hk' as [k0 [E0 Hk0]]. subst k'.
       apply (Nw k0 Hk0). destruct (kpid k0 =? q); auto.
     + apply filter_In in Hk' as [Hk' _]. eapply Nw; eauto.
     + eapply Nw; eauto.
-  - unfold next. rewrite step_call. cbn [fst]. exact A.
+  - destruct k; cbn [kstep nextinc]; lia.
+Qed.
+
+Lemma ksteps_alive_false ks i : forall w,
+  i < nextinc w -> alive w i = false ->
+  alive (fold_left kstep ks w) i = false /\ i < nextinc (fold_left kstep ks w).
+Proof.
+  induction ks as [|k ks IH]; intros w Hi A; cbn [fold_left]; auto.
+  destruct (kstep_alive_false w k i Hi A) as [A' Hi']. apply IH; auto.
+Qed.
+
+Lemma cstep_alive w c i : alive (fst (fst (cstep w c))) i = alive w i.
+Proof. rewrite cstep_eq. reflexivity. Qed.
+
+Lemma cstep_nextinc w c : nextinc (fst (fst (cstep w c))) = nextinc w.
+Proof. rewrite cstep_eq. reflexivity. Qed.
+
+Lemma alive_next_false w e i :
+  i < nextinc w -> alive w i = false -> alive (next w e) i = false.
+Proof.
+  intros Hi A. destruct e as [k|c|o s ks].
+  - apply kstep_alive_false; auto.
+  - unfold next. cbn [step]. rewrite cstep_alive. exact A.
+  - rewrite next_race.
+    assert (P : alive (fold_left kstep ks (fst (fst (cstep w (SetProbe o))))) i = false).
+    { apply ksteps_alive_false; [rewrite cstep_nextinc|rewrite cstep_alive]; auto. }
+    destruct (snd (fst (cstep w (SetProbe o)))); [rewrite cstep_alive|idtac|idtac]; exact P.
+Qed.
+
+Lemma obj_inc_lt w x i : Inv w -> obj_ok w x i -> i < nextinc w.
+Proof.
+  intros I ([(s0 & _ & Hh)|(Ei & _ & _)] & _ & _ & _ & R).
+  - apply (inv_lt _ I) in Hh. lia.
+  - pose proof (inv_next _ I). lia.
 Qed.
 
 Lemma still_dead h2 : forall w o,
@@ -322,13 +440,14 @@ Proof.
   induction h2 as [|e h2 IH]; intros w o I W H A; cbn [run_from fold_left]; auto.
   cbn [wf_from] in W. apply andb_true_iff in W as [W1 W2].
   pose proof (next_inv w e I W1) as I'.
-  destruct (obj_facts w o I H) as (x & Ex & ((s0 & _ & Hh) & _) & _).
+  destruct (obj_facts w o I H) as (x & Ex & Ox & _).
+  pose proof (obj_inc_lt w x _ I Ox) as Hlt.
   pose proof (proj1 (has_obj_len w o I) H) as L.
   assert (H' : has_obj (next w e) o = true).
   { apply (has_obj_len _ o I'). pose proof (objs_len_next w e I W1). lia. }
   assert (G' : g_inc (next w e) o = g_inc w o) by (apply g_inc_next; auto).
   assert (A' : alive (next w e) (g_inc (next w e) o) = false).
-  { rewrite G'. eapply alive_next_false; eauto. }
+  { rewrite G'. apply alive_next_false; auto. }
   destruct (IH (next w e) o I' W2 H' A') as (R1 & R2 & R3).
   fold (run_from (next w e) h2). rewrite R2, G' in *. auto.
 Qed.
@@ -360,10 +479,15 @@ Proof.
   destruct (IH (next w e) I' Wb H') as (R1 & R2 & R3). fold (run_from (next w e) h2).
   rewrite R2, R3. splits; auto.
   - apply g_inc_next; auto.
-  - destruct (obj_facts w o I H) as (x & _ & ((s0 & _ & Hh) & _) & _ & Egp & Eop).
-    destruct (obj_facts (next w e) o I' H') as (x' & _ & ((s1 & _ & Hh') & _) & _ & Egp' & Eop').
-    rewrite Eop, Eop'. rewrite g_inc_next in Hh' by auto.
-    apply (hist_mono w e) in Hh. destruct (inv_fun _ I' _ _ _ _ _ Hh Hh'); auto.
+  - destruct (obj_facts w o I H) as (x & _ & Ox & _ & _ & Eop).
+    destruct (obj_facts (next w e) o I' H') as (x' & _ & Ox' & _ & _ & Eop').
+    rewrite Eop, Eop'. rewrite g_inc_next in Ox' by auto.
+    destruct Ox as ([(s0 & _ & Hh)|(Ei & _ & _)] & _ & _ & _ & R);
+      destruct Ox' as ([(s1 & _ & Hh')|(Ei' & _ & _)] & _ & _ & _ & R').
+    + apply (hist_mono w e) in Hh. destruct (inv_fun _ I' _ _ _ _ _ Hh Hh'); auto.
+    + apply (inv_lt _ I) in Hh. lia.
+    + apply (inv_lt _ I') in Hh'. lia.
+    + lia.
 Qed.
 
 Lemma ginc_stable h1 h2 o :
@@ -377,8 +501,9 @@ Proof.
 Qed.
 
 (* ================================================================ model answers are among the demanded ones *)
-Lemma nonset_effects w c : (forall o s, c <> Set_ o s) -> effects_of w (EC c) = [].
-Proof. intros N. rewrite effects_call, mcall_nonset_scs by auto. reflexivity. Qed.
+Lemma nonset_effects w c :
+  (forall o s, c <> Set_ o s) -> (forall o s, c <> SetAct o s) -> effects_of w (EC c) = [].
+Proof. intros N N'. rewrite effects_call, mcall_nonset_scs by auto. reflexivity. Qed.
 
 Lemma step_meets_spec h c : wf_hist h = true ->
   match spec_call (run h) c with
@@ -387,7 +512,7 @@ Lemma step_meets_spec h c : wf_hist h = true ->
   end.
 Proof.
   intros W. pose proof (run_inv h W) as I.
-  destruct c as [pid|pid|o|o|o|o|a b|a b|o s|o|o| |]; cbn [spec_call]; auto.
+  destruct c as [pid|pid|o|o s|o|o|o|o|o|a b|a b|o s|o|o| |]; cbn [spec_call]; auto.
   - (* New *)
     rewrite nonset_effects by (intros; discriminate). left. f_equal.
     rewrite outcome_call. cbn [mcall]. unfold new_obj.
@@ -397,14 +522,20 @@ Proof.
     + destruct (Z.ltb_spec pid PID_MAX); [|lia]. cbn [andb].
       rewrite view_stat, owner_lookup. destruct (lookup (table (run h)) pid); cbn [fst snd]; auto.
       rewrite (Forall2_len _ _ _ (inv_objs _ I)). reflexivity.
+  - (* EqOther *)
+    destruct (has_obj (run h) o) eqn:H; auto.
+    rewrite nonset_effects by (intros; discriminate). rewrite outcome_call. cbn [mcall]. unfold has_obj in H.
+    destruct (nth_error (objs (ms (run h))) o); [|discriminate]. left; reflexivity.
   - (* IsRunning *)
     destruct (has_obj (run h) o) eqn:H; auto.
     rewrite nonset_effects by (intros; discriminate). rewrite (is_running_answer h o W H). left; reflexivity.
   - (* EqC *)
-    destruct (has_obj (run h) a) eqn:Ha; cbn [andb]; auto. destruct (has_obj (run h) b) eqn:Hb; auto.
+    destruct (has_obj (run h) a) eqn:Ha; cbn [andb]; auto. destruct (has_obj (run h) b) eqn:Hb; cbn [andb]; auto.
+    destruct ((0 <=? g_inc (run h) a) || (0 <=? g_inc (run h) b)); auto.
     rewrite nonset_effects by (intros; discriminate). rewrite (eq_iff_same_incarnation h a b W Ha Hb). left; reflexivity.
   - (* HashEq *)
-    destruct (has_obj (run h) a) eqn:Ha; cbn [andb]; auto. destruct (has_obj (run h) b) eqn:Hb; auto.
+    destruct (has_obj (run h) a) eqn:Ha; cbn [andb]; auto. destruct (has_obj (run h) b) eqn:Hb; cbn [andb]; auto.
+    destruct ((0 <=? g_inc (run h) a) || (0 <=? g_inc (run h) b)); auto.
     rewrite nonset_effects by (intros; discriminate). rewrite (hash_follows_eq h a b W Ha Hb). left; reflexivity.
   - (* Set_ *)
     destruct (has_obj (run h) o) eqn:H; auto.
@@ -461,3 +592,187 @@ Proof.
   intros W Ha Hb E. destruct (obj_pid_creation h a W Ha) as [-> _]. destruct (obj_pid_creation h b W Hb) as [-> _].
   unfold g_pid. rewrite E. reflexivity.
 Qed.
+
+(* ================================================================ C02: other operands *)
+Lemma different_pid_not_equal h a b :
+  wf_hist h = true -> has_obj (run h) a = true -> has_obj (run h) b = true ->
+  obj_pid (run h) a <> obj_pid (run h) b ->
+  outcome_of (run h) (EC (EqC a b)) = Val (RBool false)
+  /\ outcome_of (run h) (EC (HashEq a b)) = Val (RHash false true).
+Proof.
+  intros W Ha Hb N.
+  assert (E : (g_inc (run h) a =? g_inc (run h) b) = false).
+  { apply Z.eqb_neq. intros E. apply N. apply same_incarnation_same_pid; auto. }
+  rewrite (eq_iff_same_incarnation h a b W Ha Hb), (hash_follows_eq h a b W Ha Hb), E. auto.
+Qed.
+
+Lemma eq_other_false w o : has_obj w o = true ->
+  outcome_of w (EC (EqOther o)) = Val (RBool false) /\ effects_of w (EC (EqOther o)) = []
+  /\ ms (next w (EC (EqOther o))) = ms w.
+Proof.
+  intros H. unfold next. rewrite outcome_call, effects_call, step_call. cbn [mcall fst snd ms].
+  unfold has_obj in H. destruct (nth_error (objs (ms w)) o); [|discriminate]. cbn. auto.
+Qed.
+
+(* ================================================================ C01: the call taken apart (probe, window, system call) *)
+Lemma view_of_ext w w' : table w' = table w -> btime w' = btime w -> view_of w' = view_of w.
+Proof. intros Et Eb. unfold view_of. rewrite Et, Eb. reflexivity. Qed.
+
+Lemma tag_ext w w' : table w' = table w -> tag w' = tag w.
+Proof. intros Et. unfold tag, owner. rewrite Et. reflexivity. Qed.
+
+Lemma skipn_upd_nil {A} o (a : A) l : skipn (length l) (upd_nth o a l) = [].
+Proof. apply skipn_all2. rewrite upd_nth_length. lia. Qed.
+
+(* the state after the probe half *)
+Lemma probe_world w o x : nth_error (objs (ms w)) o = Some x ->
+  let x1 := fst (fst (do_probe (view_of w) x)) in
+  let w1 := fst (fst (cstep w (SetProbe o))) in
+  table w1 = table w /\ btime w1 = btime w /\ hist w1 = hist w
+  /\ nth_error (objs (ms w1)) o = Some x1
+  /\ snd (fst (cstep w (SetProbe o))) = snd (fst (do_probe (view_of w) x)).
+Proof.
+  intros Ex. cbn zeta. rewrite cstep_eq. cbn [fst snd mcall]. rewrite Ex.
+  destruct (do_probe (view_of w) x) as [[x1 r] add]. cbn [fst snd table btime hist ms with_reusedset with_objs objs].
+  splits; auto. eapply nth_error_upd_same; eauto.
+Qed.
+
+Lemma do_setter_split K x s :
+  do_setter K x s =
+  let '(x1, r, add) := do_probe K x in
+  match r with
+  | Val _ => let '(x2, r2, scs) := setter_body K x1 s in (x2, r2, add, scs)
+  | Exc e => (x1, Exc e, add, [])
+  | OutOfModel => (x1, OutOfModel, add, [])
+  end.
+Proof.
+  unfold do_setter, do_probe. destruct (opid x <? 0); [reflexivity|].
+  destruct (raise_if_pid_reused K x) as [[x1 r] add]. destruct r; reflexivity.
+Qed.
+
+(* no kernel event between probe and system call: the two-step call IS the atomic call *)
+Lemma race_no_event_between w o s : has_obj w o = true ->
+  outcome_of w (ER o s []) = outcome_of w (EC (Set_ o s))
+  /\ effects_of w (ER o s []) = effects_of w (EC (Set_ o s)).
+Proof.
+  intros H. unfold has_obj in H. destruct (nth_error (objs (ms w)) o) as [x|] eqn:Ex; [|discriminate].
+  rewrite outcome_call, effects_call. destruct (mcall_set w o s x Ex) as [-> ->].
+  rewrite do_setter_split.
+  destruct (probe_world w o x Ex) as (Et & Eb & _ & En & Er). cbn zeta in *.
+  unfold outcome_of, effects_of. cbn [step fold_left].
+  destruct (cstep w (SetProbe o)) as [[w1 r1] e1]. cbn [fst snd] in *. subst r1.
+  destruct (do_probe (view_of w) x) as [[x1 r] add]. cbn [fst snd] in *.
+  destruct r as [u|e|]; cbn [fst snd]; auto.
+  rewrite cstep_eq. cbn [fst snd mcall]. rewrite En, (view_of_ext w w1 Et Eb), (tag_ext w w1 Et).
+  destruct (setter_body (view_of w) x1 s) as [[x2 r2] scs]. cbn [fst snd]. auto.
+Qed.
+
+Lemma ksteps_objs ks w : objs (ms (fold_left kstep ks w)) = objs (ms w).
+Proof. rewrite ksteps_ms. reflexivity. Qed.
+
+(* whatever happens in the window, the system call names the PID of the object and the requested value *)
+Lemma race_names_own_pid w o s ks : has_obj w o = true ->
+  effects_of w (ER o s ks) = []
+  \/ exists t, effects_of w (ER o s ks) = [(intended (obj_pid w o) s, t)].
+Proof.
+  intros H. unfold has_obj in H. destruct (nth_error (objs (ms w)) o) as [x|] eqn:Ex; [|discriminate].
+  assert (Eop : obj_pid w o = opid x) by (unfold obj_pid; rewrite Ex; reflexivity). rewrite Eop.
+  destruct (probe_world w o x Ex) as (_ & _ & _ & En & Er). cbn zeta in *.
+  assert (Ep : opid (fst (fst (do_probe (view_of w) x))) = opid x).
+  { unfold do_probe. destruct (opid x <? 0); [reflexivity|]. pose proof (raise_if_pid (view_of w) x) as P.
+    destruct (raise_if_pid_reused (view_of w) x) as [[x1 r] add]. exact P. }
+  unfold effects_of. cbn [step].
+  destruct (cstep w (SetProbe o)) as [[w1 r1] e1]. cbn [fst snd] in *.
+  destruct r1; cbn [snd]; auto.
+  set (x1 := fst (fst (do_probe (view_of w) x))) in *.
+  assert (Eo2 : nth_error (objs (ms (fold_left kstep ks w1))) o = Some x1) by (rewrite ksteps_objs; exact En).
+  set (w2 := fold_left kstep ks w1) in *. rewrite cstep_eq. cbn [snd mcall]. rewrite Eo2.
+  destruct (setter_body (view_of w2) x1 s) as [[x2 r2] scs] eqn:B. cbn [snd].
+  pose proof (setter_body_spec w2 x1 s x2 r2 scs B) as (_ & _ & _ & _ & _ & Hv). rewrite Ep in Hv.
+  destruct (valid_args (opid x) s).
+  - destruct (owner w2 (opid x)).
+    + destruct Hv as (_ & _ & ->). right. cbn [map]. rewrite tag_intended. eauto.
+    + destruct Hv as (_ & [-> | ->]); [left; reflexivity|right]. cbn [map]. rewrite tag_intended. eauto.
+  - destruct Hv as (_ & _ & ->). left; reflexivity.
+Qed.
+
+(* the process is gone and the PID taken at the time of the probe: nothing happens, whatever follows *)
+Lemma race_no_effect_on_new_owner h o s ks :
+  wf_hist h = true -> has_obj (run h) o = true ->
+  alive (run h) (g_inc (run h) o) = false ->
+  owner (run h) (obj_pid (run h) o) <> None ->
+  outcome_of (run h) (ER o s ks) = Exc NoSuchProcess /\ effects_of (run h) (ER o s ks) = [].
+Proof.
+  intros W H A Ow. pose proof (run_inv h W) as I.
+  destruct (obj_facts _ o I H) as (x & Ex & O & _ & _ & Eop). rewrite Eop in Ow.
+  destruct (probe_world _ o x Ex) as (_ & _ & _ & _ & Er). cbn zeta in *.
+  unfold outcome_of, effects_of. cbn [step].
+  destruct (cstep (run h) (SetProbe o)) as [[w1 r1] e1]. cbn [fst snd] in *. subst r1.
+  unfold do_probe. destruct O as (Hh & Hg & Hhash & Hrg & R) eqn:EO. destruct (Z.ltb_spec (opid x) 0); [lia|].
+  assert (O' : obj_ok (run h) x (g_inc (run h) o)) by (unfold obj_ok; auto).
+  destruct (raise_if_spec _ x _ I O') as (x1 & r & add & E & _ & _ & Ho & _). rewrite E. cbn [fst snd].
+  rewrite (Ho A Ow). auto.
+Qed.
+
+(* with no event in the window a delivered request reaches the object's own process *)
+Lemma race_receiver_own h o s c i :
+  wf_hist h = true -> has_obj (run h) o = true ->
+  In (c, Some i) (effects_of (run h) (ER o s [])) ->
+  i = g_inc (run h) o /\ c = intended (obj_pid (run h) o) s.
+Proof.
+  intros W H Hin. destruct (race_no_event_between (run h) o s H) as [_ E]. rewrite E in Hin.
+  destruct (exact_delivery h o s W H) as [E0|[E0|E0]]; rewrite E0 in Hin; cbn in Hin.
+  - contradiction.
+  - destruct Hin as [Hin|[]]. inversion Hin.
+  - destruct Hin as [Hin|[]]. inversion Hin; subst. auto.
+Qed.
+
+(* ... and with a reap + spawn in the window it reaches the new owner: the residual TOCTOU *)
+Definition ex_race_hist : list ev := [EK (Spawn 5 100 1 [112]); EC (New 5)].
+Definition ex_race_window : list kev := [Reap 5; Spawn 5 101 1 [113]].
+
+Lemma race_receiver_refuted :
+  wf_hist (ex_race_hist ++ [ER 0%nat Kill ex_race_window]) = true
+  /\ has_obj (run ex_race_hist) 0 = true
+  /\ g_inc (run ex_race_hist) 0 = 0
+  /\ alive (run ex_race_hist) 0 = true
+  /\ outcome_of (run ex_race_hist) (ER 0%nat Kill ex_race_window) = Val RNone
+  /\ effects_of (run ex_race_hist) (ER 0%nat Kill ex_race_window) = [(SKill 5 9, Some 1)].
+Proof. vm_compute. repeat split. Qed.
+
+(* ================================================================ psutil.Popen whose child is already gone *)
+Lemma popen_gone_child h pid :
+  wf_hist h = true -> 0 <= pid < PID_MAX -> owner (run h) pid = None ->
+  let n := length (objs (ms (run h))) in
+  let w' := next (run h) (EC (NewPopen pid)) in
+  outcome_of (run h) (EC (New pid)) = Exc NoSuchProcess
+  /\ outcome_of (run h) (EC (NewPopen pid)) = Val (RObj n)
+  /\ has_obj w' n = true /\ obj_pid w' n = pid /\ g_inc w' n = -1 - pid
+  /\ alive w' (g_inc w' n) = false.
+Proof.
+  intros W R Ow. pose proof (run_inv h W) as I. set (w := run h) in *. cbn zeta.
+  rewrite owner_lookup in Ow. destruct (lookup (table w) pid) eqn:L; [discriminate|].
+  assert (N1 : new_obj (view_of w) pid = Exc NoSuchProcess).
+  { unfold new_obj. destruct (Z.ltb_spec pid 0); [lia|]. destruct (Z.leb_spec PID_MAX pid); [lia|].
+    rewrite view_stat, L. reflexivity. }
+  assert (N2 : new_popen (view_of w) pid = Val (orphan_obj pid)).
+  { unfold new_popen. destruct (Z.ltb_spec pid 0); [lia|]. destruct (Z.leb_spec PID_MAX pid); [lia|].
+    rewrite view_stat, L. reflexivity. }
+  pose proof (Forall2_len _ _ _ (inv_objs _ I)) as Len.
+  unfold next. rewrite !outcome_call, step_call. cbn [mcall fst snd]. rewrite N1, N2. cbn [fst snd].
+  splits; auto.
+  - unfold has_obj. cbn [ms with_objs objs]. rewrite nth_error_app2, Nat.sub_diag by lia. reflexivity.
+  - unfold obj_pid. cbn [ms with_objs objs]. rewrite nth_error_app2, Nat.sub_diag by lia. reflexivity.
+  - unfold g_inc. cbn [ginc ms with_objs objs]. rewrite skipn_app_exact. cbn [map].
+    rewrite Len, app_nth2, Nat.sub_diag by lia. cbn [nth]. unfold ghost_of, orphan_obj; cbn [opid].
+    rewrite owner_lookup, L. reflexivity.
+  - unfold g_inc. cbn [ginc ms with_objs objs]. rewrite skipn_app_exact. cbn [map].
+    rewrite Len, app_nth2, Nat.sub_diag by lia. cbn [nth]. unfold ghost_of, orphan_obj; cbn [opid].
+    rewrite owner_lookup, L. unfold alive. cbn [table]. fold (alive w (-1 - pid)). apply neg_not_alive; auto. lia.
+Qed.
+
+Lemma race_receiver_own_explicit h o s ks c i :
+  wf_hist h = true -> has_obj (run h) o = true -> ks = [] ->
+  In (c, Some i) (effects_of (run h) (ER o s ks)) ->
+  i = g_inc (run h) o /\ c = intended (obj_pid (run h) o) s.
+Proof. intros W H -> Hin. eapply race_receiver_own; eauto. Qed.
